@@ -226,6 +226,7 @@ fn one_spawn(v: &Value, files: &mut Files, out: &mut Vec<String>, idx: usize) {
         unsafe { simk::raw::exit_group(98) };
     }
     slog::stop();
+    let fault_fired = slog::fault_fired();
     unsafe { environ = saved_environ };
     slog::PARENT_DELAY_AFTER_FORK_US.store(0, std::sync::atomic::Ordering::SeqCst);
     slog::set_fault(None);
@@ -236,7 +237,7 @@ fn one_spawn(v: &Value, files: &mut Files, out: &mut Vec<String>, idx: usize) {
             let pid = p.pid().unwrap_or(0);
             out.push(json!({"e":"result","ok":true,"errkind":"none","errno":0,
                 "has":[p.stdin.is_some(),p.stdout.is_some(),p.stderr.is_some()],
-                "pfd":[fdof(&p.stdin),fdof(&p.stdout),fdof(&p.stderr)],"pid_known":pid != 0,"forked":forked}).to_string());
+                "pfd":[fdof(&p.stdin),fdof(&p.stdout),fdof(&p.stderr)],"pid_known":pid != 0,"forked":forked,"fault_fired":fault_fired}).to_string());
             // what the parent holds right now (its pipe ends are part of this table)
             out.push(json!({"e":"held","fds":fd_table()}).to_string());
             let rep = read_report(pid);
@@ -258,7 +259,7 @@ fn one_spawn(v: &Value, files: &mut Files, out: &mut Vec<String>, idx: usize) {
                 _ => ("other", 0),
             };
             out.push(json!({"e":"result","ok":false,"errkind":kind,"errno":errno,"has":[false,false,false],
-                "pfd":[-1,-1,-1],"pid_known":false,"forked":forked,"msg":e.to_string()}).to_string());
+                "pfd":[-1,-1,-1],"pid_known":false,"forked":forked,"fault_fired":fault_fired,"msg":e.to_string()}).to_string());
             // a child that reported although create failed?
             for cp in &child_pids {
                 let p = format!("{}/{}.json", vr(), cp);
@@ -270,7 +271,7 @@ fn one_spawn(v: &Value, files: &mut Files, out: &mut Vec<String>, idx: usize) {
         }
         Err(_) => {
             out.push(json!({"e":"result","ok":false,"errkind":"panic","errno":0,"has":[false,false,false],
-                "pfd":[-1,-1,-1],"pid_known":false,"forked":forked}).to_string());
+                "pfd":[-1,-1,-1],"pid_known":false,"forked":forked,"fault_fired":fault_fired}).to_string());
         }
     }
     let _ = child_pids;
